@@ -66,6 +66,10 @@ def render(r, e, parent_prec=0, right_side=False, extra=True):
     txt = render(r, l, p, False) + " " + op + " " + render(r, rr, p, True)
     need = p < parent_prec or (p == parent_prec and right_side)
     if need or (extra and r.chance(1, 6)):
+        # inside brackets an operation on two plain operands may be written without blanks: `(size*2)`, `(2*size)`
+        if extra and op in ("*", "/", "%", "+") and l[0] in ("col", "lit", "len") and rr[0] in ("col", "lit") and r.chance(1, 2) \
+                and not (l[0] == "lit" and (str(l[1]).startswith("-") or "." in str(l[1]))) and not (rr[0] == "lit" and (str(rr[1]).startswith("-") or "." in str(rr[1]))):
+            return "(" + render(r, l, p, False) + op + render(r, rr, p, True) + ")"
         return "(" + txt + ")"
     return txt
 
